@@ -113,7 +113,7 @@ type IndexSpec struct {
 
 // Op is one step of the history.
 type Op struct {
-	// create update delete | rcreate rupdate rdelete pull push | mkindex dropindex
+	// create update delete | rcreate rupdate rdelete pull push | mkindex dropindex toggleindex (drop if it exists, else create)
 	Kind string `json:"kind"`
 	// N selects the target (document, message or index) modulo what exists.
 	N int `json:"n,omitempty"`
@@ -122,6 +122,8 @@ type Op struct {
 	// Via (create update delete, on live documents): 0 Collection.Create/Update/Delete;
 	// 1 CreateMany / Save / DeleteWithFilter on _docID; 2 Save / UpdateWithFilter on _docID / as 1.
 	Via int `json:"via,omitempty"`
+	// Last (push): the latest commit of the remote node instead of message N.
+	Last bool `json:"last,omitempty"`
 }
 
 // F is a filter expression.
